@@ -246,6 +246,8 @@ func cmdCheck(args []string) int {
 		}
 	}
 	nreplay := 0
+	// schedule-dependent findings are re-run natively many times; keep the total effort bounded
+	schedBudget := 150 * time.Second
 	for _, cf := range cfs {
 		if cf.status != "" {
 			continue
@@ -270,7 +272,19 @@ func cmdCheck(args []string) int {
 		ok := false
 		why := ""
 		for r := 0; r < reps && !ok; r++ {
-			out, _ := nb.run(caseKey(cf.spec.Harness, cf.spec.Args), vec, 60*time.Second)
+			perRun := 60 * time.Second
+			if reps > 1 {
+				if schedBudget <= 0 {
+					why = "native stress budget exhausted before this finding was tried"
+					break
+				}
+				perRun = 20 * time.Second
+			}
+			tr := time.Now()
+			out, _ := nb.run(caseKey(cf.spec.Harness, cf.spec.Args), vec, perRun)
+			if reps > 1 {
+				schedBudget -= time.Since(tr)
+			}
 			o := parseNative(out)
 			ok, why = confirmFinding(f, o)
 			if os.Getenv("VX_DEBUG") != "" {
